@@ -34,6 +34,7 @@ type Run struct {
 	nontriv   map[uint64]bool
 	verbose   bool
 	checksRun int
+	allocated int // entities created by the current call
 }
 
 func (r *Run) fail(prop, sig, detail string, ops []string) {
@@ -61,6 +62,7 @@ func (r *Run) runHistory(idx int, next func(p *Pool, step int) (Op, bool), onTai
 	var done []string
 	taint := ""
 	kinds := map[string]bool{}
+	prevBroken := map[string]bool{}
 	sawRefusal, sawRekey := false, false
 	h := fnv.New64a()
 	for step := 0; ; step++ {
@@ -78,11 +80,13 @@ func (r *Run) runHistory(idx int, next func(p *Pool, step int) (Op, bool), onTai
 			before = snapshot(p)
 			r.fallible++
 		}
+		nBefore := len(p.ents)
 		out, bad := exec(p, o)
 		if bad != nil {
 			fmt.Fprintf(os.Stderr, "harness: %v: %s\n", bad, o)
 			os.Exit(3)
 		}
+		r.allocated = len(p.ents) - nBefore
 		done = append(done, o.String())
 		h.Write([]byte(o.String() + ";"))
 		st := site(o)
@@ -100,7 +104,9 @@ func (r *Run) runHistory(idx int, next func(p *Pool, step int) (Op, bool), onTai
 				line += " " + strconv.FormatInt(f, 10)
 			}
 			r.emitOp(o, line)
-			fmt.Fprintf(r.trace, "R panic\n")
+			if modelled(o.Name) {
+				fmt.Fprintf(r.trace, "R panic\n")
+			}
 			failOn("c06", "c06-panic@"+st, fmt.Sprintf("%s panicked: %s", st, trunc(out.PanicMsg, 200)))
 			r.hist[o.Name+".panic"]++
 			if r.verbose {
@@ -150,7 +156,9 @@ func (r *Run) runHistory(idx int, next func(p *Pool, step int) (Op, bool), onTai
 			line += " " + strconv.FormatInt(f, 10)
 		}
 		r.emitOp(o, line)
-		fmt.Fprintf(r.trace, "R %s\n", res)
+		if modelled(o.Name) {
+			fmt.Fprintf(r.trace, "R %s\n", res)
+		}
 		fmt.Fprintf(r.trace, "D %s\n", modelDump(p))
 		key := o.Name + ".ok"
 		if out.Err != nil {
@@ -168,13 +176,20 @@ func (r *Run) runHistory(idx int, next func(p *Pool, step int) (Op, bool), onTai
 		}
 		// property predicates on the implementation
 		r.checksRun++
+		nowBroken := map[string]bool{}
 		for _, c := range checkAll(p) {
 			id := clauseID(c)
-			failOn(propOf(id), id+"@"+st, c)
+			nowBroken[id] = true
+			// a clause that was already broken before this call is attributed to the call
+			// after which it first failed
+			if !prevBroken[id] {
+				failOn(propOf(id), id+"@"+st, c)
+			}
 			if r.verbose {
 				fmt.Printf("    BROKEN %s\n", c)
 			}
 		}
+		prevBroken = nowBroken
 	}
 	if len(kinds) >= 3 && sawRefusal && sawRekey {
 		r.nontriv[h.Sum64()] = true
@@ -186,6 +201,10 @@ func (r *Run) emitOp(o Op, line string) {
 		fmt.Fprintf(r.trace, "O %s\n", line)
 	} else {
 		fmt.Fprintf(r.trace, "X %s\n", line)
+		// entities of kinds the model does not have still consume handles
+		for i := 0; i < r.allocated; i++ {
+			fmt.Fprintf(r.trace, "O NewOther\nR ok\n")
+		}
 	}
 }
 
@@ -242,7 +261,7 @@ func main() {
 			return Op{}, false
 		}, nil)
 	} else {
-		nHist, nSteps := 300, 60
+		nHist, nSteps := 500, 60
 		if tier == "thorough" {
 			nHist, nSteps = 12000, 70
 		}
@@ -251,7 +270,17 @@ func main() {
 		for hI := 0; hI < nHist; hI++ {
 			g := &Gen{r: &RNG{s: seed*0x9E3779B97F4A7C15 + uint64(hI)*0xD1B54A32D192ED03 + 1}, allowReattach: hI%4 == 3, allowTwoIface: hI%5 == 4, invalidPct: 62}
 			pre := g.prefix()
+			var queue []Op
+			queued := false
 			r.runHistory(hI+1, func(p *Pool, step int) (Op, bool) {
+				if step < len(pre) {
+					return pre[step], true
+				}
+				if !queued {
+					queue, queued = g.signalOps(p), true
+					pre = append(pre, queue...)
+					return pre[step], true
+				}
 				if step < len(pre) {
 					return pre[step], true
 				}
